@@ -630,6 +630,9 @@ class Inliner:
             return out
         fn.body = walk_list(fn.body)
         if changed:
+            if os.environ.get("SA_NO_NORMAL") != "1":
+                from .normal import renormalise_function
+                renormalise_function(fn)
             ast.fix_missing_locations(fn)
             for n in ast.walk(fn):
                 for ch in ast.iter_child_nodes(n):
